@@ -35,7 +35,11 @@ public:
    const UncText &GetStr() const { return(*(UncText *)&m_str); }
    UncText &Str();
    size_t Len() const;
+#ifdef VERIF_CHUNK_TEXT_DECL
+   const char *Text() const;            // defined by the translation unit (the text is used, not only logged)
+#else
    const char *Text() const { return ""; }
+#endif
    size_t GetOrigLine() const;
    size_t GetOrigCol() const;
    size_t GetOrigPrevSp() const;
@@ -70,6 +74,8 @@ public:
    bool IsBraceClose() const;
    bool TestFlags(unsigned long flags) const;
    void SetFlags(unsigned long flags);
+   void SetFlagBits(unsigned long setBits);
+   void ResetFlagBits(unsigned long resetBits);
    size_t GetLevel() const;
    size_t GetPpLevel() const;
    void SetPpLevel(size_t level);
